@@ -23,8 +23,20 @@ man = {
     "engines": [
         {"name": "E0 program index", "path": "sa/index.py", "serves_properties": sorted(CHECKS),
          "kind_free_text": "ast-based index of modules, classes (C3 MRO), properties/cache_decorator members, imports, constants"},
-        {"name": "E2 CFG", "path": "sa/cfg.py", "serves_properties": [k for k in sorted(CHECKS)],
-         "kind_free_text": "statement-level CFG with exceptional edges and duplicated finally bodies; dominators, post-dominators, bounded path enumeration (networkx)"},
+        {"name": "E1 effects", "path": "sa/effects.py", "serves_properties": ["C01", "C04", "C07", "C08", "C09", "C10", "C14", "C15", "C17", "C18", "C20"],
+         "kind_free_text": "interprocedural read/write/alias/effect (RANDOM, OPENS, EXITS) summaries over access paths, getters inlined through the MRO, flow-sensitive second phase; sa/cachesim.py simulates Cache surgery per CFG path; sa/preserve.py, sa/rawreads.py share obligations"},
+        {"name": "E2 CFG", "path": "sa/cfg.py", "serves_properties": ["C01", "C02", "C04", "C07", "C09", "C10", "C11", "C14", "C17", "C18", "C20"],
+         "kind_free_text": "statement-level CFG with exceptional edges and duplicated finally bodies; dominators, post-dominators, bounded path enumeration, reaching definitions (networkx)"},
+        {"name": "E3 algebraic interpreter", "path": "sa/alg.py", "serves_properties": ["C03", "C04", "C10", "C14", "C18", "C19"],
+         "kind_free_text": "AST -> sympy expressions in numpy object arrays; decision tables, overrides, trace, stubs; identities decided by polynomial normal forms (no solver). sa/interval.py: path-splitting interval domain with dtype overflow (C06)"},
+        {"name": "E4 tables / layout", "path": "sa/tables.py", "serves_properties": ["C05", "C08", "C11", "C18", "C19"],
+         "kind_free_text": "constant tables and registries evaluated from module-level statements; face->edge layout and child-table extraction (sa/layout.py)"},
+        {"name": "E5 canonical forms", "path": "sa/provenance.py", "serves_properties": ["C04", "C05", "C11", "C19", "C20"],
+         "kind_free_text": "reaching-definition inlining, callee resolution, cast stripping, stop names, enclosing guards, emptiness-guard recogniser: structural rules independent of local names and import aliases"},
+        {"name": "E6 end-of-stream evaluation", "path": "sa/eofeval.py", "serves_properties": ["C20"],
+         "kind_free_text": "constant propagation of the EOF value through read loops; every back edge must consume a finite resource"},
+        {"name": "self-test harness", "path": "sa/selftest.py", "serves_properties": sorted(CHECKS),
+         "kind_free_text": "mutant / benign variants (mutants/*.json) and seeded changes (seeded/*) applied to scratch copies under $TMPDIR; run by --tier thorough, results in evidence"},
     ],
     "checks": [],
     "not_applicable": [],
